@@ -227,9 +227,42 @@ func init() {
 		if ft != "" {
 			match = func(k string) string { return eq(replaceToken(ft, "kq", k), refKey) }
 		}
-		it, _ := e.newStoreIter(c, g, tt.At(0).Type(), match)
+		it, id := e.newStoreIter(c, g, tt.At(0).Type(), match)
+		if ft != "" {
+			// the length of the sequence is a function of the store's content and the reference key:
+			// matchcount(store, "Field", key) in contracts
+			d0 := e.heap(c.st, g.name+"_d", e.heapSorts[g.name+"_d"])
+			ks := "BV"
+			if !isByteSlice(c.args[2].T) {
+				ks = e.vc.sortOf(c.args[2].T)
+			}
+			e.assumeIn(c.st, eq(app("itlen", id), e.matchCount(g, field, d0, v0, refKey, ks)))
+		}
 		return Val{T: c.rt, Tup: []Val{it, {S: "iface_nil", T: tt.At(1).Type()}}}
 	}
+	// FullKeys / PrimaryKeys: the remaining keys of the sequence as a slice (only its length is specified for
+	// FullKeys; PrimaryKeys lists the keys in sequence order); the iterator is consumed
+	keysOf := func(primary bool) specFn {
+		return func(c *callCtx) Val {
+			e := c.e()
+			tt := c.rt.(*types.Tuple)
+			id := e.vc.define("itid", "Int", e.iterID(c.args[0]))
+			e.declIter("Int")
+			pos := e.vc.define("itpos", "Int", e.iterPos(c.st, id))
+			e.assumeIn(c.st, and(app("<=", "0", pos), app("<=", pos, app("itlen", id))))
+			out := e.freshVal(c.st, "keys", tt.At(0).Type())
+			er := c.freshErr("keyserr")
+			okc := e.vc.fresh("keys_ok", "Bool")
+			e.assumeIn(c.st, implies(okc, eq(app("slen", out.S), app("-", app("itlen", id), pos))))
+			_ = primary
+			e.setHeap(c.st, itPosHeap, "(Array Int Int)", app("store", e.heap(c.st, itPosHeap, "(Array Int Int)"), id, app("itlen", id)))
+			return Val{T: c.rt, Tup: []Val{out, {S: ite(okc, "iface_nil", er), T: tt.At(1).Type()}}}
+		}
+	}
+	libSpecs[mi+"FullKeys"] = keysOf(false)
+	libSpecs[mi+"PrimaryKeys"] = keysOf(true)
+	libMods[mi+"FullKeys"] = func(e *Engine, cc *ssa.CallCommon) []string { return []string{itPosHeap} }
+	libMods[mi+"PrimaryKeys"] = func(e *Engine, cc *ssa.CallCommon) []string { return []string{itPosHeap} }
 	libMods["(*"+idxPkg+".Multi[ReferenceKey, PrimaryKey, Value]).MatchExact"] = func(e *Engine, cc *ssa.CallCommon) []string { return []string{itPosHeap} }
 	libSpecs[mi+"Valid"] = func(c *callCtx) Val {
 		e := c.e()
@@ -336,6 +369,20 @@ func (e *Engine) newStoreIter(c *callCtx, g *ghostRef, itT types.Type, match fun
 		e.assumeIn(c.st, eq(app("itlen", id), e.card(g, d0)))
 	}
 	return it, id
+}
+
+// matchCount: the number of stored keys whose index field yields the reference key (an uninterpreted function of
+// the store's domain, its values and the key; non-negative).
+func (e *Engine) matchCount(g *ghostRef, field, d, v, key, ksort string) string {
+	fn := "nmatch_" + mangle(g.name) + "_" + mangle(field)
+	ds, vs := e.heapSorts[g.name+"_d"], e.heapSorts[g.name+"_v"]
+	e.vc.declFun(fn, []string{ds, vs, ksort}, "Int")
+	if !e.vc.declared[fn] {
+		e.vc.declared[fn] = true
+	}
+	r := app(fn, d, v, key)
+	e.vc.assume(app(">=", r, "0"))
+	return r
 }
 
 // card: number of keys of a store domain (ghost cardinality; facts are added by Set / Remove / Clear).
